@@ -152,9 +152,12 @@ def r2_payload_sites(ctx):
             d = dotted(c.func) or ''
             if d not in ('self._make_request', 'self._make_streaming_request'):
                 continue
+            pd = kwarg(c, 'payload_digest')
+            fparams = {a.arg for a in f.node.args.posonlyargs + f.node.args.args + f.node.args.kwonlyargs}
+            if name in ('_make_request', '_make_streaming_request') and isinstance(pd, ast.Name) and pd.id in fparams and any(k.arg is None for k in c.keywords):
+                continue  # one request helper handing its own arguments to the other: judged at the outer call sites
             n += 1
             ctx.analysed(f)
-            pd = kwarg(c, 'payload_digest')
             content = kwarg(c, 'content') or kwarg(c, 'data') or kwarg(c, 'json')
             hd = kwarg(c, 'headers')
             site = loc(f, c)
@@ -227,14 +230,29 @@ def r2_payload_sites(ctx):
         last = gs.node.body[-1]
         oks = hn is not None and 'hashlib.sha256()' in src(gs.node.body[0]) and bool(upd) and isinstance(last, ast.Return) and src(last.value) == f'{hn}.hexdigest()'
     if gs is not None:
-        loops = [l for l in walk_local(gs.node) if isinstance(l, (ast.For, ast.While))]
-        whole = False
-        for l in loops:
-            exits = [x for x in walk_local(l) if isinstance(x, (ast.Break, ast.Return)) and x is not l]
-            if isinstance(l, ast.For) and isinstance(l.iter, ast.Call) and dotted(l.iter.func) == 'iter' and len(l.iter.args) == 2 and isinstance(l.iter.args[1], ast.Constant) and l.iter.args[1].value == b'' and not exits:
-                whole = True
-            if isinstance(l, ast.While) and isinstance(l.test, ast.NamedExpr) and not exits:
-                whole = True
+        def _reads_to_eof(fnode, depth=0):
+            if depth and any(isinstance(r, ast.Return) and isinstance(r.value, ast.Call) and dotted(r.value.func) == 'iter' and len(r.value.args) == 2 and isinstance(r.value.args[1], ast.Constant) and r.value.args[1].value == b'' for r in walk_local(fnode)):
+                return True
+            for l in [l for l in walk_local(fnode) if isinstance(l, (ast.For, ast.While))]:
+                exits = [x for x in walk_local(l) if isinstance(x, (ast.Break, ast.Return)) and x is not l]
+                if isinstance(l, ast.For) and isinstance(l.iter, ast.Call) and dotted(l.iter.func) == 'iter' and len(l.iter.args) == 2 and isinstance(l.iter.args[1], ast.Constant) and l.iter.args[1].value == b'' and not exits:
+                    return True
+                if isinstance(l, ast.While) and isinstance(l.test, ast.NamedExpr) and not exits:
+                    return True
+                # `while True: x = read(); if not x: break` (the walrus written out by the normalisation pass)
+                if isinstance(l, ast.While) and isinstance(l.test, ast.Constant) and l.test.value is True and len(exits) == 1 and isinstance(exits[0], ast.Break):
+                    par = getattr(exits[0], '_parent', None)
+                    if isinstance(par, ast.If) and isinstance(par.test, ast.UnaryOp) and isinstance(par.test.op, ast.Not) and isinstance(par.test.operand, ast.Name):
+                        return True
+                # the package's own chunk iterator, itself reading to EOF
+                if isinstance(l, ast.For) and isinstance(l.iter, ast.Call) and not exits and depth == 0:
+                    nm = (dotted(l.iter.func) or '').rsplit('.', 1)[-1]
+                    helper = corpus.module('utils').functions.get(nm)
+                    if helper is not None and _reads_to_eof(helper.node, 1):
+                        return True
+            return False
+
+        whole = _reads_to_eof(gs.node)
         ctx.check(
             whole,
             'C16.R2',
